@@ -18,6 +18,7 @@ const PROPS: &[(&str, RunFn, ReplayFn)] = &[
     ("C08", props::c08::run, props::c08::replay),
     ("C09", props::c09::run, props::c09::replay),
     ("C10", props::c10::run, props::c10::replay),
+    ("C11", props::c11::run, props::c11::replay),
     ("C12", props::c12::run, props::c12::replay),
     ("C13", props::c13::run, props::c13::replay),
     ("C16", props::c16::run, props::c16::replay),
